@@ -49,7 +49,7 @@ def run(chk, build, replay=None):
     common.standard_proof_part(chk, build, VFILES)
     chk.trusted += [
         "C02: the one-line theorem is about the project's own unparser (model tied by string correspondence); "
-        "`ast.unparse(...).replace('\\n','')` is CPython's code and is only observed",
+        "the ast.unparse path is CPython's code and is only observed (an output with a line break falls back to the project's unparser)",
         "that the text is exactly one expression rests on CPython's compile() run on every output (support) until the C03 "
         "round-trip theorem covers it",
     ]
